@@ -26,7 +26,8 @@ MANIFEST = {
 }
 RULE = ("operation sequences over 4 registers of header maps: every constructor form (dict, kwargs, dict+kwargs, "
         "lowerstr keys, another header map, CIMultiDict with repeated names) then set/del/del_lower/copy/combine/"
-        "combine_lower_dict/replace/==; exhaustive to a fixed depth over a reduced alphabet, random beyond; after every "
+        "combine_lower_dict/replace/==/!= and the inherited MutableMapping API (pop, popitem, setdefault, update, clear; "
+        "get/keys/items/values are observed after every operation); exhaustive to a fixed depth over a reduced alphabet, random beyond; after every "
         "operation the full observation vector of every live register is compared. non-trivial = the sequence touches "
         "two spellings of one folded name; distinct = distinct canonical driver text")
 EXHAUSTIVE = {"quick": False, "thorough": False}
@@ -72,9 +73,17 @@ def observe(d, probes) -> str:
         getl.append(f"{lk}:{'!' if v is _ABSENT else fv(v)}")
     mem = [f"{k}:{'T' if k in d else 'F'}" for k in probes]
     it = list(d)
+    # the inherited Mapping API (collections.abc mixins today; any override must still agree)
+    mget = []
+    for k in probes:
+        v = d.get(k, _ABSENT)
+        mget.append(f"{k}:{'!' if v is _ABSENT else fv(v)}")
+    keys = list(d.keys())
+    vals = [fv(v) for v in d.values()]
     return (f"len={len(d)} iter={','.join(it) if it else '~'} get={','.join(gets)} getl={','.join(getl)} "
             f"in={','.join(mem)} lower={o_pairs(d.as_lower_dict().items())} data={o_pairs(d.as_dict().items())} "
-            f"cmap={o_pairs(d.case_map().items())}")
+            f"cmap={o_pairs(d.case_map().items())} mget={','.join(mget)} keys={','.join(keys) if keys else '~'} "
+            f"items={o_pairs(d.items())} values={','.join(vals) if vals else '~'}")
 
 
 def run_recipe(ctx: Ctx, recipe: Dict[str, Any], cid: str) -> Case:
@@ -186,6 +195,46 @@ def run_recipe(ctx: Ctx, recipe: Dict[str, Any], cid: str) -> Case:
                     continue
                 line = f"replci {r} {a}"
                 regs[r].replace(regs[a])  # shares a's dicts by design: the driver models the sharing
+            elif name == "pop":
+                _, r, k = op
+                if r not in regs:
+                    continue
+                line = f"pop {r} {k}"
+                res = fv(regs[r].pop(k))
+            elif name == "popitem":
+                _, r = op
+                if r not in regs:
+                    continue
+                line = f"popitem {r}"
+                pk, pv = regs[r].popitem()
+                res = f"{pk}:{fv(pv)}"
+            elif name == "setdefault":
+                _, r, k, v = op
+                if r not in regs:
+                    continue
+                touch([k])
+                line = f"setdefault {r} {k} {fv(v)}"
+                res = fv(regs[r].setdefault(k, v))
+            elif name == "update":
+                _, r, arg = op
+                if r not in regs:
+                    continue
+                pairs = [tuple(p) for p in arg]
+                touch(k for k, _ in pairs)
+                line = f"update {r} {fmt_pairs(dict(pairs).items())}"
+                regs[r].update(dict(pairs))
+            elif name == "clear":
+                _, r = op
+                if r not in regs:
+                    continue
+                line = f"clear {r}"
+                regs[r].clear()
+            elif name == "ne":
+                _, a, b = op
+                if a not in regs or b not in regs:
+                    continue
+                line = f"ne {a} {b}"
+                res = "T" if regs[a] != regs[b] else "F"
             elif name == "eq":
                 _, a, b = op
                 if a not in regs or b not in regs:
@@ -235,6 +284,7 @@ EXH_OPS = [
     ["combine", 2, 0, 1], ["combine", 0, 1, 0], ["combl", 2, 0, [["key", 5], ["zz", 6]]],
     ["repl", 0, [["KEY", 7], ["Key", 8], ["x", 1]]], ["replci", 0, 1], ["new", 3, "ci", 0],
     ["eq", 0, 1], ["eqd", 0, [["KEY", 1], ["OTHER", 3]]],
+    ["pop", 0, "KEY"], ["popitem", 0], ["setdefault", 0, "kEY", 7], ["update", 0, [["OTHER", 8], ["Key", 9]]], ["clear", 1], ["ne", 0, 1],
 ]
 
 
@@ -251,7 +301,7 @@ def rand_op(rng):
     a = rng.randrange(0, 4)
     b = rng.randrange(0, 4)
     k = rng.choice(KEYS + ["zz"])
-    c = rng.randrange(0, 16)
+    c = rng.randrange(0, 21)
     if c < 4:
         return ["set", r, k, rand_val(rng)]
     if c < 6:
@@ -273,8 +323,18 @@ def rand_op(rng):
     if c == 13:
         return ["new", r, "ci", a]
     if c == 14:
-        return ["eq", a, b]
-    return ["eqd", a, rand_pairs(rng, rng.randrange(0, 4))]
+        return rng.choice([["eq", a, b], ["ne", a, b]])
+    if c == 15:
+        return ["eqd", a, rand_pairs(rng, rng.randrange(0, 4))]
+    if c == 16:
+        return ["pop", r, k]
+    if c == 17:
+        return ["popitem", r]
+    if c == 18:
+        return ["setdefault", r, k, rand_val(rng)]
+    if c == 19:
+        return ["update", r, rand_pairs(rng, rng.randrange(0, 4))]
+    return ["clear", r]
 
 
 def generate(ctx: Ctx) -> List[Case]:
